@@ -29,7 +29,7 @@ from vf.common import wall_budget, HELD, INCONCLUSIVE, VIOLATED, Run, case_hash,
 PID = "C19"
 UNSUPPORTED = [("zero", "triangle"), ("custom_integral", "triangle"), ("cutcell_integral", "triangle"), ("vertex_discontinuous", "triangle"), ("negative_id", "triangle"),
                ("facet_normal_on_prism", "prism"), ("interior_facet_on_prism", "prism"), ("cell_volume_nonaffine", "quadrilateral"), ("circumradius_nonaffine", "hexahedron"),
-               ("bessel_I", "triangle"), ("three_arguments", "triangle"), ("nonlinear_in_argument", "triangle"), ("expression_two_arguments", "triangle"),
+               ("bessel_I", "triangle"), ("bessel_K", "triangle"), ("bessel_J_real_order", "triangle"), ("bessel_Y_real_order", "interval"), ("three_arguments", "triangle"), ("nonlinear_in_argument", "triangle"), ("expression_two_arguments", "triangle"),
                ("cell_avg", "triangle"), ("facet_avg", "triangle"), ("mixed_real", "triangle")]
 
 
